@@ -311,10 +311,9 @@ def c12_events(ast, src_path=None):
       mine = None
   try:
     dec = pickle_utils.DecodeAst(b1)
-    canon = pytd_utils.CanonicalOrdering(x)      # x's pointers are cleared now; names remain
+    canon = pytd_utils.CanonicalOrdering(renamed_original(x))   # x's pointers are cleared now
     evs.append(ev("Decode", True, st.ast_digest(dec.ast), e=pytd_utils.ASTeq(dec.ast, canon),
-                  x="" if dec.ast.name == canon.name or canon.name.endswith(".__init__")
-                  else "module name changed"))
+                  x="" if dec.ast.name == canon.name else "module name changed"))
   except Exception as e:  # pylint: disable=broad-except
     evs.append(ev("Decode", False, x=_err(e)))
     if mine is not None:
